@@ -411,6 +411,33 @@ fn write_string(v: &Val) -> R<String> {
     })
 }
 
+/// A path without `.` components, doubled slashes and `name/..` pairs (relative stays relative).
+fn lexical_path(p: &str) -> String {
+    let absolute = p.starts_with('/');
+    let mut parts: Vec<&str> = vec![];
+    for comp in p.split('/') {
+        match comp {
+            "" | "." => {}
+            ".." => {
+                if matches!(parts.last(), Some(l) if *l != "..") {
+                    parts.pop();
+                } else if !absolute {
+                    parts.push("..");
+                }
+            }
+            c => parts.push(c),
+        }
+    }
+    let joined = parts.join("/");
+    if absolute {
+        format!("/{joined}")
+    } else if joined.is_empty() {
+        ".".to_string()
+    } else {
+        joined
+    }
+}
+
 fn quoted(x: &Sexp) -> R {
     Ok(match x {
         Sexp::Str(s) => Val::Str(Arc::from(s.as_str())),
@@ -1790,7 +1817,8 @@ impl Runtime {
                     match as_str(args.first().unwrap_or(&Val::Unspec), name)? {
                         "/dev/stdout" | "/dev/fd/1" | "/proc/self/fd/1" => "stdout".to_string(),
                         "/dev/stderr" | "/dev/fd/2" | "/proc/self/fd/2" => "stderr".to_string(),
-                        other => format!("file:{other}"),
+                        // spellings of one path (x, ./x, a/../x, a//x) are one file
+                        other => format!("file:{}", lexical_path(other)),
                     }
                 } else {
                     "stdout".to_string()
